@@ -5,7 +5,7 @@
    (and none after) reach the database; the F9 deviation loses exactly those beyond the window. *)
 EXTENDS Source, TLC, Json
 CONSTANT MaxItems
-D1 == <<100, 49>>  D2 == <<103, 102, 102, 45, 118, 32, 51>>     \* "d1", "gff-v 3"
+D1 == <<100, 49>>  D2 == <<103, 102, 102, 45, 118, 101, 114, 115, 105, 111, 110, 32, 51>>     \* "d1", "gff-version 3" (wherever it stands in the file)
 D3 == <<35, 110, 111, 116, 101>>      \* the line "###note" is the directive "#note"
 Kinds == {"F", "D1", "D2", "D3", "D0", "C", "B", "FASTA", "H", "J"}       \* D0: the line "##" - a directive with the empty text
 TypeOf(n) == IF n % 2 = 0 THEN <<103>> ELSE <<101>>
